@@ -19,7 +19,7 @@ def _jobs(ctx):
     q = ctx.quick()
     n = 40 if q else 500
     return (sc.corpus_job(ctx) + [(f'rates{k}', ['rates_sto', n]) for k in range(8 if q else 12)]
-            + [(f'ship{k}', ['shipped_sto', n]) for k in range(4 if q else 8)])
+            + [(f'ship{k}', ['shipped_sto', n]) for k in range(3 if q else 8)] + [(f'fixrec{k}', ['fixrec_sto', n]) for k in range(3 if q else 6)])
 
 
 def _nt(e):
@@ -33,7 +33,7 @@ def tie(ctx):
 
 
 def search(ctx, hint):
-    return sc.search_with(ctx, hint, [(f's{k}', ['rates_sto', 200]) for k in range(8)])
+    return sc.search_with(ctx, hint, [(f's{k}', ['rates_sto', 200]) for k in range(5)] + [(f'f{k}', ['fixrec_sto', 200]) for k in range(5)])
 
 
 def replay(ctx, rep):
